@@ -140,6 +140,11 @@ type checkResult struct {
 	solverSecs   float64
 	backends     map[string]int
 	files        []string
+	// tagOwner: clause tag -> short key of the function whose contract carries it (for the roots of the check)
+	tagOwner map[string]string
+	// contractErrs: roots whose contract could not be evaluated on the current code (a clause mentions a local or a
+	// loop / anchor that no longer exists there): the code under contract changed shape
+	contractErrs map[string]string
 }
 
 func runUnit(u Unit, cfg *PropConfig, tier string, workdir string, res *checkResult) {
@@ -205,8 +210,18 @@ func runUnit(u Unit, cfg *PropConfig, tier string, workdir string, res *checkRes
 		}
 		e.statesRun = 0
 		tr := time.Now()
+		if res.tagOwner == nil {
+			res.tagOwner, res.contractErrs = map[string]string{}, map[string]string{}
+		}
+		for t := range contractTags(e.contractFor(f)) {
+			res.tagOwner[t] = shortKey(funcKey(f))
+		}
 		if err := e.RunRoot(f); err != nil {
-			res.engineErrors = append(res.engineErrors, err.Error())
+			msg := err.Error()
+			if strings.Contains(msg, "unresolved identifier") || strings.Contains(msg, "cannot resolve") || strings.Contains(msg, "unknown field") {
+				res.contractErrs[shortKey(funcKey(f))] = msg
+			}
+			res.engineErrors = append(res.engineErrors, msg)
 		}
 		if os.Getenv("GOVC_VERBOSE") != "" {
 			fmt.Fprintf(os.Stderr, "root %s: explored in %.1fs, %d states, %d obligations so far\n", r, time.Since(tr).Seconds(), e.statesRun, len(e.obligations))
@@ -414,9 +429,17 @@ func Check(id, tier string) int {
 		if tagSeen[t] {
 			continue
 		}
+		reason := "the contract clause tagged " + t + " generated no obligation although every root was explored without an engine error: the program point it is attached to (call / map update / loop / function exit) is no longer reached in the function under contract"
 		if !cleanRun {
-			res.engineErrors = append(res.engineErrors, "required clause "+t+" generated no obligation (function renamed, removed, or contract missing)")
-			continue
+			// the clause's own function could not be run because its contract no longer fits the code (a clause names a
+			// local variable / loop that is gone): the code under contract changed shape - reported like a vanished anchor
+			owner := res.tagOwner[t]
+			cerr, shaped := res.contractErrs[owner]
+			if owner == "" || !shaped {
+				res.engineErrors = append(res.engineErrors, "required clause "+t+" generated no obligation (function renamed, removed, or contract missing)")
+				continue
+			}
+			reason = "the contract of " + owner + " (which carries the clause " + t + ") can no longer be evaluated on the current code: " + cerr
 		}
 		replayDir := filepath.Join(verifDir, "replays", id)
 		if d := os.Getenv("GOVC_REPLAY_DIR"); d != "" {
@@ -425,7 +448,7 @@ func Check(id, tier string) int {
 		os.MkdirAll(replayDir, 0o755)
 		rp := filepath.Join(replayDir, sanitize("clause_"+t)+".json")
 		rec := map[string]interface{}{"property": id, "obligation": "clause:" + t, "kind": "missing-clause", "solver_status": "not generated",
-			"solver_output": "the contract clause tagged " + t + " generated no obligation although every root was explored without an engine error: the program point it is attached to (call / map update / loop / function exit) is no longer reached in the function under contract", "replay_confirms": false}
+			"solver_output": reason, "replay_confirms": false}
 		b, _ := json.MarshalIndent(rec, "", " ")
 		os.WriteFile(rp, b, 0o644)
 		violations = append(violations, fmt.Sprintf("VIOLATION property=%s replay=%s obligation=clause:%s no-failing-input-found", id, rp, t))
